@@ -1,13 +1,13 @@
 package main
 
 import (
-	"path/filepath"
-	"os"
 	"encoding/json"
 	"fmt"
 	"go/ast"
 	"go/token"
 	"go/types"
+	"os"
+	"path/filepath"
 	"sort"
 	"strings"
 
